@@ -20,6 +20,7 @@ use vharness::{catch, read_json, NdjsonOut};
 const PIE_BIAS: u64 = 0x5555_5555_4000;
 
 struct Ctx {
+    old_pids: Vec<i32>,
     dbg: Option<Debugger>,
     rec: Recorder,
     out: Output,
@@ -440,6 +441,7 @@ fn main() {
         dbg::launch(&argv[1], &args)
     };
     let mut cx = Ctx {
+        old_pids: vec![],
         dbg: Some(d),
         rec,
         out: outp,
@@ -460,8 +462,13 @@ fn main() {
             let d = cx.dbg.take();
             let r = catch(move || drop(d));
             std::thread::sleep(std::time::Duration::from_millis(60));
+            let stale: Vec<Value> = cx
+                .old_pids
+                .iter()
+                .filter_map(|p| probe::process_state(*p).map(|s| json!({"pid": p, "state": s})))
+                .collect();
             out.emit(&json!({"ev": "obs", "k": k, "cmd": c, "res": {"ok": r.is_ok(), "panic": r.err()},
-                "hooks": cx.rec.take(), "after": {"proc_state": probe::process_state(cx.pid), "tasks": probe::task_states_json(cx.pid)}}));
+                "hooks": cx.rec.take(), "after": {"proc_state": probe::process_state(cx.pid), "tasks": probe::task_states_json(cx.pid), "stale": stale}}));
             continue;
         }
         BUSY_SINCE.store(now_ms(), std::sync::atomic::Ordering::Relaxed);
@@ -469,11 +476,25 @@ fn main() {
         BUSY_SINCE.store(0, std::sync::atomic::Ordering::Relaxed);
         if name == "restart" {
             if let Some(p) = res["ret"]["pid"].as_i64() {
+                if p as i32 != cx.pid {
+                    cx.old_pids.push(cx.pid);
+                }
                 cx.pid = p as i32;
             }
         }
         let hooks = cx.rec.take();
-        let after = if res.get("panic").is_some() { json!({"status": "panicked"}) } else { observe(&cx) };
+        let mut after = if res.get("panic").is_some() { json!({"status": "panicked"}) } else { observe(&cx) };
+        if name == "restart" {
+            std::thread::sleep(std::time::Duration::from_millis(30));
+        }
+        if let Some(o) = after.as_object_mut() {
+            let stale: Vec<Value> = cx
+                .old_pids
+                .iter()
+                .filter_map(|p| probe::process_state(*p).map(|s| json!({"pid": p, "state": s})))
+                .collect();
+            o.insert("stale".into(), json!(stale));
+        }
         out.emit(&json!({"ev": "obs", "k": k, "cmd": c, "res": res, "hooks": hooks, "after": after}));
         if res.get("panic").is_some() {
             // the debugger's state is unknown after a panic: stop the session here
